@@ -133,6 +133,7 @@ type Exec struct {
 	wArrs     map[*ArrObj]bool
 	wOther    map[interface{}]bool
 	monitor   *lockMonitor
+	monitorOn bool
 	lastModel *Model
 	minfo     map[*ssa.Function]*mergeInfo
 	noMerge   bool
